@@ -521,6 +521,139 @@ func nestingProbe(w *casefile.Writer, evalModel bool) {
 	}
 }
 
+// ---- flat shapes: many NOTs / brackets in total, little nesting
+
+type flatShape struct {
+	name   string
+	query  string
+	level  int // level of the deepest sub-expression
+	leaves int
+	negs   int // NOT + NAND nodes expected in the returned tree, -1 = not checked
+}
+
+func flatShapes() []flatShape {
+	var out []flatShape
+	excl := func(n int, and, not string) string {
+		var sb strings.Builder
+		sb.WriteString("k:keep")
+		for i := 0; i < n; i++ {
+			fmt.Fprintf(&sb, " %s %s k:v%d", and, not, i)
+		}
+		return sb.String()
+	}
+	for _, n := range []int{9998, 10000, 10050, 30000} {
+		// (..((keep AND NOT v0) AND NOT v1)..): one NAND per negation
+		out = append(out, flatShape{fmt.Sprintf("exclusion-list-%d", n), excl(n, "and", "not"), 2, n + 1, n})
+	}
+	out = append(out, flatShape{"exclusion-list-upper-10050", excl(10050, "AND", "NOT"), 2, 10051, 10050})
+	{
+		var sb strings.Builder
+		n := 10010
+		for i := 0; i < n; i++ {
+			if i > 0 {
+				sb.WriteString(" or ")
+			}
+			fmt.Fprintf(&sb, "(not k:v%d)", i)
+		}
+		// OR of negations = NOT of the AND chain: one NOT at the root
+		out = append(out, flatShape{"or-chain-of-negated-groups-10010", sb.String(), 3, n, 1})
+	}
+	{
+		var sb strings.Builder
+		n := 10010
+		for i := 0; i < n; i++ {
+			if i > 0 {
+				sb.WriteString(" and ")
+			}
+			fmt.Fprintf(&sb, "(k:v%d)", i)
+		}
+		out = append(out, flatShape{"and-chain-of-bracket-groups-10010", sb.String(), 2, n, 0})
+	}
+	{
+		// mix: 4000 x  not (k:a or not k:b) and (not not k:c) or k:d  -> 16000 NOTs, 8000 bracket pairs, level 4
+		var sb strings.Builder
+		n := 4000
+		for i := 0; i < n; i++ {
+			if i > 0 {
+				sb.WriteString(" or ")
+			}
+			fmt.Fprintf(&sb, "not (k:a%d or not k:b%d) and (not not k:c%d) or k:d%d", i, i, i, i)
+		}
+		out = append(out, flatShape{"mix-16000-nots-8000-brackets", sb.String(), 4, 4 * n, -1})
+	}
+	return out
+}
+
+func astStats(n *parser.ASTNode) (leaves, negs int) {
+	// iterative: the trees are left-deep and tens of thousands of nodes high
+	stack := []*parser.ASTNode{n}
+	for len(stack) > 0 {
+		x := stack[len(stack)-1]
+		stack = stack[:len(stack)-1]
+		if x == nil {
+			continue
+		}
+		if lg, ok := x.Value.(*parser.Logical); ok {
+			if op := parser.VerifLogicalOp(lg); op == parser.VerifNot || op == parser.VerifNAnd {
+				negs++
+			}
+			stack = append(stack, x.Children...)
+		} else {
+			leaves++
+		}
+	}
+	return
+}
+
+// nestingFlat: part of the nesting regression class. The limit is about NESTING: a long flat query
+// must be accepted by both parsers (C12_level_is_nesting), with the complete flat tree.
+func nestingFlat(w *casefile.Writer) {
+	for _, sh := range flatShapes() {
+		for _, target := range []string{"ParseQuery", "ParseSeqQL"} {
+			sh, target := sh, target
+			var root *parser.ASTNode
+			var perr error
+			r := guarded(func() error {
+				if target == "ParseSeqQL" {
+					q, err := parser.ParseSeqQL(sh.query, nil)
+					root, perr = q.Root, err
+				} else {
+					root, perr = parser.ParseQuery(sh.query, nil)
+				}
+				return perr
+			})
+			w.Evals(1)
+			pre := sh.query
+			if len(pre) > 120 {
+				pre = pre[:120] + " ..."
+			}
+			in := map[string]any{"probe": "nesting-flat", "shape": sh.name, "target": target, "query_prefix": pre, "query_len": len(sh.query), "level": sh.level}
+			if r.hung || r.panicked != nil {
+				w.Violate("panic-or-hang:"+target+":nesting-flat", fmt.Sprintf("%s on %s: panic=%v hung=%v", target, sh.name, r.panicked, r.hung), in)
+				continue
+			}
+			leaves, negs := 0, 0
+			impl := "error"
+			if !r.isErr {
+				leaves, negs = astStats(root)
+				impl = fmt.Sprintf("ok: %d leaves, %d NOT/NAND nodes", leaves, negs)
+			} else {
+				impl = "error: " + perr.Error()
+				if len(impl) > 200 {
+					impl = impl[:200]
+				}
+			}
+			expNegs := sh.negs
+			if expNegs < 0 {
+				expNegs = negs
+			}
+			w.Count("nesting-flat:" + target + ":" + sh.name + ":" + map[bool]string{true: "error", false: "ok"}[r.isErr])
+			w.Add(fmt.Sprintf("CFlat %s %d%%N %d%%N %s %d%%N %d%%N %d%%N %d%%N", casefile.Bool(target == "ParseSeqQL"), sh.level, modelMaxNesting, casefile.Bool(!r.isErr), leaves, sh.leaves, negs, expNegs),
+				"nesting-flat", true, in, impl)
+		}
+	}
+}
+
 // flatChainProbe (thorough tier only; ~2 GB, several seconds): a FLAT chain of 10^7 OR operators
 // builds a left-deep AST and propagateNot recurses over it until the stack overflows. Known
 // finding: one fingerprint for both parsers.
@@ -598,6 +731,20 @@ func legacyCases(w *casefile.Writer, r *rng.R, tier string) {
 	// grammar-derived expressions in raw legacy syntax (spec: truth table)
 	for i := 0; i < nExpr; i++ {
 		legacyExprCase(w, r, randExpr(r, r.Range(1, 5), false))
+	}
+	// flat queries with many NOTs / brackets, small enough for the model
+	for _, n := range []int{30, 120} {
+		var a, b strings.Builder
+		a.WriteString("k:keep")
+		for i := 0; i < n; i++ {
+			fmt.Fprintf(&a, " and not k:v%d", i)
+			if i > 0 {
+				b.WriteString(" or ")
+			}
+			fmt.Fprintf(&b, "(not k:v%d)", i)
+		}
+		legacyCase(w, a.String(), "nil", false, nil, "legacy-raw-deep")
+		legacyCase(w, b.String(), "nil", false, nil, "legacy-raw-deep")
 	}
 	// deep nesting
 	for _, n := range deep {
